@@ -104,9 +104,11 @@ class PoolScenario:
         plan = {"code": 0}
         if r.chance(kn["p_fail_code"]):
             plan["code"] = r.pick([1, 1, 2, 127, 255, -11, -15, -9])
-        size = r.pick([0, 0, 5, 100]) if not kn["big_output"] else r.pick([0, 5, 8192, 70000])
+        size = r.pick([0, 0, 5, 100]) if not kn["big_output"] else r.pick([0, 5, 8192, 70000, 300000])
         plan["out_len"] = size
-        plan["err_len"] = r.pick([0, 0, 3, size])
+        plan["err_len"] = r.pick([0, 0, 3, size, 300000 if kn["big_output"] else 3])
+        if r.chance(0.3):
+            plan["stderr_first"] = True
         if kn["spawn_fail"] and r.chance(0.12):
             plan["spawn_fail"] = r.pick(["enoent", "enoent", "eagain"])
         if kn["spawn_wait"] and r.chance(0.25):
